@@ -1030,6 +1030,17 @@ Proof.
   splits; auto. intro i. specialize (Heq i). rewrite occ_nil in Heq. lia.
 Qed.
 
+(** the same as a permutation: handed-or-dropped ++ leaked = inputs ++ produced values *)
+Theorem map_by_val_exactly_once : forall clo ids,
+  match map_by_val clo ids with
+  | (r, ev, leak) => Permutation (accounted ev ++ leak) (ids ++ produced clo 0 ids)
+  end.
+Proof.
+  intros clo ids. pose proof (map_by_val_accounting clo ids) as H.
+  destruct (map_by_val clo ids) as [[r ev] leak]. destruct H as [_ [_ [_ Heq]]].
+  apply occ_Permutation. intro i. rewrite !occ_app. apply Heq.
+Qed.
+
 (** the leak list is non-empty only after [break]: then the body broke out on the element
     just before the leaked ones, after passing all earlier ones, and the macro panics *)
 Theorem map_by_val_leak_only_after_break : forall clo ids,
@@ -1069,6 +1080,72 @@ Proof.
   destruct (Nat.eq_dec (occ leak i) 0) as [E | E].
   - left. split; [now apply occ_not_In | lia].
   - right. split; [apply occ_In; lia | apply occ_not_In; lia].
+Qed.
+
+(** the same loop when the inputs are not in the ledger (the [()]s of from_fn_!): on every
+    path, every value already in the builder and every value the body produced is handed
+    over or dropped exactly once, and nothing else happens *)
+Lemma map_loop_accounting_untracked : forall fuel clo k c b ev rest outs,
+  c_rep c rest -> b_rep b outs -> length outs + length rest <= b_cap b -> length rest < fuel ->
+  match map_loop fuel clo false k c b ev with
+  | (r, ev', leak) =>
+      exists new, ev' = ev ++ new /\ cloned new = [] /\
+        forall i, occ (accounted new) i = occ outs i + occ (produced clo k rest) i
+  end.
+Proof.
+  induction fuel as [|fuel IH]; intros clo k c b ev rest outs Hc Hb Hroom Hfuel; [lia|].
+  cbn [map_loop]. destruct rest as [|x r].
+  - rewrite (c_next_rep_nil _ Hc). unfold map_finish.
+    rewrite (c_as_slice_rep _ _ Hc), (b_build_rep _ _ Hb). cbn [produced].
+    destruct (length outs =? b_cap b).
+    + exists (map Hand outs). splits; auto using cloned_hands.
+      intro i. rewrite accounted_hands, !occ_nil. lia.
+    + rewrite (b_drop_rep _ _ Hb). exists (map Drop outs). splits; auto using cloned_drops.
+      intro i. rewrite accounted_drops, !occ_nil. lia.
+  - destruct (c_next_rep_cons _ _ _ Hc) as [c1 [Hn [Hc1 Hcap1]]]. rewrite Hn.
+    cbn [length] in *. cbn [produced in_ev]. rewrite !app_nil_r.
+    destruct (clo k x) as [y| | | |] eqn:Hclo.
+    + destruct (b_push_rep_room b outs y Hb) as [b1 [Hp [Hb1 Hbc]]]; [lia|]. rewrite Hp.
+      specialize (IH clo (S k) c1 b1 ev r (outs ++ [y]) Hc1 Hb1).
+      rewrite app_length, Hbc in IH. cbn [length] in IH.
+      specialize (IH ltac:(lia) ltac:(lia)).
+      destruct (map_loop fuel clo false (S k) c1 b1 ev) as [[r' ev'] leak].
+      destruct IH as [new [E [Hcl Heq]]].
+      exists new. splits; auto.
+      intro i. specialize (Heq i). rewrite occ_app in Heq. rewrite (occ_cons y). lia.
+    + unfold map_finish. rewrite (c_as_slice_rep _ _ Hc1), (b_build_rep _ _ Hb).
+      replace (length outs =? b_cap b) with false by (symmetry; apply Nat.eqb_neq; lia).
+      rewrite (b_drop_rep _ _ Hb). exists (map Drop outs). splits; auto using cloned_drops.
+      intro i. rewrite accounted_drops, occ_nil. lia.
+    + specialize (IH clo (S k) c1 b ev r outs Hc1 Hb ltac:(lia) ltac:(lia)).
+      destruct (map_loop fuel clo false (S k) c1 b ev) as [[r' ev'] leak].
+      exact IH.
+    + unfold map_unwind. rewrite (b_drop_rep _ _ Hb), (c_drop_rep _ _ Hc1). cbn [in_ev app].
+      rewrite app_nil_r. exists (map Drop outs). splits; auto using cloned_drops.
+      intro i. rewrite accounted_drops, occ_nil. lia.
+    + unfold map_unwind. rewrite (b_drop_rep _ _ Hb), (c_drop_rep _ _ Hc1). cbn [in_ev app].
+      rewrite app_nil_r. exists (map Drop outs). splits; auto using cloned_drops.
+      intro i. rewrite accounted_drops, occ_nil. lia.
+Qed.
+
+(** array::from_fn_! on every path: the values the body produced are exactly what is handed
+    over or dropped, each once (counted with multiplicity) *)
+Theorem from_fn_by_val_accounting : forall clo N,
+  match from_fn_by_val clo N with
+  | (r, ev, _) =>
+      cloned ev = [] /\
+      Permutation (accounted ev) (produced (fun k _ => clo k (Z.of_nat k)) 0 (repeat 0%Z N))
+  end.
+Proof.
+  intros clo N. unfold from_fn_by_val.
+  assert (Hcap : b_cap (b_new N) = N) by (unfold b_cap, b_new; cbn; apply repeat_length).
+  pose proof (map_loop_accounting_untracked (S N) (fun k _ => clo k (Z.of_nat k)) 0
+                (c_new (repeat 0%Z N)) (b_new N) [] (repeat 0%Z N) [] (c_new_rep _) (b_new_rep _)) as H.
+  rewrite Hcap, repeat_length in H. specialize (H ltac:(cbn; lia) ltac:(lia)).
+  destruct (map_loop (S N) (fun k _ => clo k (Z.of_nat k)) false 0 (c_new (repeat 0%Z N)) (b_new N) [])
+    as [[r ev] leak].
+  destruct H as [new [E [Hcl Heq]]]. cbn [app] in E. subst ev. split; [assumption|].
+  apply occ_Permutation. intro i. rewrite (Heq i), occ_nil. lia.
 Qed.
 
 (* ------------------------------------------------------------------ initial tables *)
